@@ -283,7 +283,10 @@ class Sym:
     def _cmp(s, o, op, rev=False, negate=False):
         if isinstance(o, _ND) and o.ndim > 0:
             return NotImplemented
-        on = lift(o)
+        try:
+            on = lift(o)
+        except TypeError:
+            return NotImplemented
         r = cmp(op, on, s.n) if rev else cmp(op, s.n, on)
         return SymB(bnot(r) if negate else r)
 
